@@ -4,16 +4,18 @@
     ping
     mon <wire-ev>* | <res>*
         the Spec monitor on a chronological wire log and per-call results
-        -> ok | bad X=<0|1> S=<0|1> O=<0|1>
-    run <xl> <nextSeq> <sessSeq> <calls:cmd>,<calls:cmd>,… | <tid:act>*
-        trace validation: replay a logged access sequence in the Model
-        -> ok wire <wire-ev>* res <res>* mon <0|1> done <0|1>
+        -> ok | bad X=<0|1> S=<0|1> O=<0|1> C=<0|1>
+    run <xl> <nextSeq> <sessSeq> <calls:cmd>,<calls:cmd>,… <ka ticks|-> <closer tid|-> <join 0|1> | <tid:act>*
+        trace validation: replay a logged access sequence in the Model (application threads in the
+        order given, the keep-alive thread last; variant `join`)
+        -> ok wire <wire-ev>* res <res>* mon <0|1> done <0|1> act <0|1>
          | reject <index> expected <act|none>
 
   wire-ev ::= T:tid:serial:seq:rq:cmd | R:tid:serial
   res     ::= tid:sent:got            (got = "-" when the call failed)
   act     ::= ldNS:v | stNS:v | acq | rel | ldSS:v | stSS:v | tx:serial:seq:rq:cmd | rx:serial
             | rxTimeout | qget:serial | qput:serial
+            | ldAct:<0|1> | stAct:<0|1> | tick | kaExit | await | stopSet | join
 -/
 import PyIpmi.Base.Proto
 import PyIpmi.Model.Threads
@@ -44,6 +46,8 @@ def showAct : Act → String
   | .ldSS v => s!"ldSS:{v}" | .stSS v => s!"stSS:{v}"
   | .tx a b c d => s!"tx:{a}:{b}:{c}:{d}" | .rx a => s!"rx:{a}" | .rxTimeout => "rxTimeout"
   | .qget a => s!"qget:{a}" | .qput a => s!"qput:{a}" | .tau => "tau"
+  | .ldAct v => s!"ldAct:{if v then 1 else 0}" | .stAct v => s!"stAct:{if v then 1 else 0}"
+  | .tick => "tick" | .kaExit => "kaExit" | .await => "await" | .stopSet => "stopSet" | .join => "join"
 
 def parseTAct (s : String) : Option (Nat × Act) :=
   match s.splitOn ":" with
@@ -58,7 +62,17 @@ def parseTAct (s : String) : Option (Nat × Act) :=
   | [t, "rxTimeout"] => do pure (← t.toNat?, .rxTimeout)
   | [t, "qget", a] => do pure (← t.toNat?, .qget (← a.toNat?))
   | [t, "qput", a] => do pure (← t.toNat?, .qput (← a.toNat?))
+  | [t, "ldAct", v] => do pure (← t.toNat?, .ldAct ((← v.toNat?) != 0))
+  | [t, "stAct", v] => do pure (← t.toNat?, .stAct ((← v.toNat?) != 0))
+  | [t, "tick"] => do pure (← t.toNat?, .tick)
+  | [t, "kaExit"] => do pure (← t.toNat?, .kaExit)
+  | [t, "await"] => do pure (← t.toNat?, .await)
+  | [t, "stopSet"] => do pure (← t.toNat?, .stopSet)
+  | [t, "join"] => do pure (← t.toNat?, .join)
   | _ => none
+
+def parseOptNat (s : String) : Option (Option Nat) :=
+  if s == "-" then some none else s.toNat?.map some
 
 def parseThreads (s : String) : Option (List (Nat × Nat)) :=
   if s == "-" then some [] else
@@ -80,21 +94,23 @@ def handleC14 (line : String) : String :=
     match w.mapM parseWEv, r.mapM parseRes with
     | some wire, some rs =>
       if accepts wire rs then "ok"
-      else s!"bad X={b01 (exchangesOk wire)} S={b01 (seqIncreasing wire)} O={b01 (ownReply wire rs)}"
+      else s!"bad X={b01 (exchangesOk wire)} S={b01 (seqIncreasing wire)} O={b01 (ownReply wire rs)} C={b01 (closeLast wire)}"
     | _, _ => "bad-op"
-  | "run" :: xl :: ns :: ss :: thr :: rest =>
+  | "run" :: xl :: ns :: ss :: thr :: ka :: closer :: join :: rest =>
     let (_, tr) := splitBar rest
-    match xl.toNat?, ns.toNat?, ss.toNat?, parseThreads thr, tr.mapM parseTAct with
-    | some xl, some ns, some ss, some thr, some tr =>
-      match replay (init ⟨ns, ss, xl, thr⟩) tr with
+    match xl.toNat?, ns.toNat?, ss.toNat?, parseThreads thr, parseOptNat ka, parseOptNat closer, join.toNat?,
+        tr.mapM parseTAct with
+    | some xl, some ns, some ss, some thr, some ka, some closer, some join, some tr =>
+      match replay (init { nextSeq := ns, sessSeq := ss, xl := xl, threads := thr, ka := ka, closer := closer,
+                           join := join != 0 }) tr with
       | .ok s =>
-        let done := s.thr.all fun th => th.pc == .done
+        let done := s.thr.all fun th => th.pc == .done || th.pc == .kaWait
         "ok wire " ++ " ".intercalate (s.wireChron.map showWEv) ++ " res " ++
           " ".intercalate (s.results.map showRes) ++
-          s!" mon {b01 (accepts s.wireChron s.results)} done {b01 done}"
+          s!" mon {b01 (accepts s.wireChron s.results)} done {b01 done} act {b01 s.activated}"
       | .error (i, l) =>
         s!"reject {i} expected " ++ (match l with | some a => showAct a | none => "none")
-    | _, _, _, _, _ => "bad-op"
+    | _, _, _, _, _, _, _, _ => "bad-op"
   | _ => "bad-op"
 
 def main : IO Unit := do
